@@ -151,6 +151,38 @@ theorem runCmp_eq (E : Env V) (c : Option (CmpOp × V)) (bs : Batches V) : runCm
     intro b _
     exact comparison_meets E.num op v b
 
+/-! ### a function name the engine has no case for: nothing is ever counted, nothing is emitted -/
+theorem foldl_idle (fn : AggFn V) (hidle : ∀ c e, fn.step c e = c) (l : List (Entry V)) (c : Cell V) : l.foldl fn.step c = c := by
+  induction l generalizing c with
+  | nil => rfl
+  | cons x xs ih => simp only [List.foldl_cons, hidle, ih]
+
+theorem emit_idle (N : NumOps V) (g : Grid) (fn : AggFn V) (hidle : ∀ c e, fn.step c e = c) (l : List (Entry V)) (r : Entry V) :
+    emitStream g fn (streamOf N g fn l r).1 (streamOf N g fn l r).2 = [] := by
+  simp only [emitStream, streamOf, foldl_idle fn hidle]
+  rw [List.filterMap_eq_nil_iff]
+  intro ci hci
+  have hm := List.mem_zipIdx' hci
+  have : ci.1 = ((N.zero, 0) : Cell V) := by
+    rw [hm.2]; simp
+  simp [this]
+
+theorem run_aggOps_idle (N : NumOps V) (M : Nat) (g : Grid) (fn : AggFn V) (hidle : ∀ c e, fn.step c e = c)
+    (bs : List (List (Entry V))) (hp : ∀ e ∈ bs.flatten, e.err = none)
+    (hcap : (firstBy (fun e : Entry V => e.fp) bs.flatten).length ≤ M) :
+    run N (aggOps N M g fn) [] bs = [] := by
+  rw [run_collect N _ (aggOps_afterSlice N M g fn)]
+  have := runBatch_aggOps N M g fn [] bs.flatten hp (by simpa using hcap)
+  rw [stateOf_nil] at this
+  rw [this]
+  simp only [List.nil_append, aggOps, stateOf, List.map_map]
+  rw [List.filter_eq_nil_iff]
+  intro b hb
+  simp only [List.mem_map, Function.comp] at hb
+  obtain ⟨r, _, hr⟩ := hb
+  rw [← hr, emit_idle N g fn hidle]
+  simp
+
 /-! ### the specification-side streams the hypotheses of the composition speak about -/
 /-- the stream that reaches the range aggregation: the stages' output, cut by `by/without` before an unwrap aggregation -/
 def aggInput (E : Env V) (p : Plan V) (es : List (Entry V)) : List (Entry V) :=
@@ -168,17 +200,9 @@ def vecInput (E : Env V) (c : Read.Ctx) (p : Plan V) (es : List (Entry V)) : Lis
   | some (_, bw, _) => optByWithout E bw (rangeResult E c p es).flatten
   | none => []
 
-/-- the range function is one the engine has a case for -/
-def aggSupported (p : Plan V) : Bool :=
-  match p.agg with
-  | some (.range fn, _) => rangeCounts fn
-  | some (.unwrap fn, _) => unwrapCounts fn
-  | none => true
-
-/-- what the composition theorem assumes about a metric plan and the flat input: a supported function, the series
-    reaching each aggregator fit under the cap, and on those streams fingerprints identify label sets -/
+/-- what the composition theorem assumes about a metric plan and the flat input: the series reaching each
+    aggregator fit under the cap, and on those streams fingerprints identify label sets -/
 structure MetricOk (E : Env V) (c : Read.Ctx) (p : Plan V) (es : List (Entry V)) : Prop where
-  supported : aggSupported p = true
   cap : (firstBy (fun e : Entry V => e.fp) (aggInput E p es)).length ≤ c.maxSeries
   faithful : FpFaithful (aggInput E p es)
   capVec : (firstBy (fun e : Entry V => e.fp) (vecInput E c p es)).length ≤ c.maxSeries
@@ -228,12 +252,12 @@ theorem vecInput_hashed (E : Env V) (c : Read.Ctx) (p : Plan V) (es : List (Entr
     that parser), fingerprints are recomputed from the label sets, so "fingerprint ↔ label set" on the streams that
     reach the aggregators follows from: no two *different* label sets among them collide. -/
 theorem metricOk_of_noCollision (E : Env V) (c : Read.Ctx) (p : Plan V) (es : List (Entry V)) (hm : p.agg.isSome = true)
-    (hr : ∃ s ∈ p.stages, s.relabels = true) (hsup : aggSupported p = true)
+    (hr : ∃ s ∈ p.stages, s.relabels = true)
     (hcap : (firstBy (fun e : Entry V => e.fp) (aggInput E p es)).length ≤ c.maxSeries)
     (hcapVec : (firstBy (fun e : Entry V => e.fp) (vecInput E c p es)).length ≤ c.maxSeries)
     (hnc : NoCollision E ((aggInput E p es).map (·.labels)))
     (hncVec : NoCollision E ((vecInput E c p es).map (·.labels))) : MetricOk E c p es :=
-  ⟨hsup, hcap, fpFaithful_of_hashed E _ (aggInput_hashed E p es hr) hnc, hcapVec,
+  ⟨hcap, fpFaithful_of_hashed E _ (aggInput_hashed E p es hr) hnc, hcapVec,
    fpFaithful_of_hashed E _ (vecInput_hashed E c p es hm hr) hncVec⟩
 
 end Qryn.Read
